@@ -18,6 +18,7 @@ PID = "C15"
 def erase(s):
     s = re.sub(r"Node::\w+", "Node::_", s)   # constructor names are evaluator-private; their meaning is compared through the chain (C10 / items 2-4)
     s = re.sub(r"\b[bmvh]\d+\b", "x", s)
+    s = re.sub(r"\(field \(param self\) (?!current_token\)|previous_token\)|tokenizer\))\w+\)", "(field (param self) _)", s)   # private field names (the placeholder) are per evaluator
     s = re.sub(r"\(lit [^ ()]+ [a-z0-9]+\)", "(k)", s)
     s = re.sub(r"\(const [^()]*\)", "(k)", s)
     s = re.sub(r"\(call (Complex|Decimal)::new \(k\) \(k\)\)", "(k)", s)
